@@ -15,14 +15,14 @@ from mc.pool import h64
 
 ID = "C19"
 LEVEL = "model_checking"
-LEVEL_TEXT = ("Explicit-state search over histories of assemblies run in one process: alphabet of 18 events (valid program; program defining "
+LEVEL_TEXT = ("Explicit-state search over histories of assemblies run in one process: alphabet of 19 events (valid program; program defining "
               "macros, symbols and a named scope whose names collide with the probes'; table load; custom .map; HiROM; failure in the "
               "scanner / parser / code generation / label pass / emission, each mid-way; the CLI in-process with -m and -D; relocation + "
-              "incbin + include; failure inside an included file; missing include file; macro block argument; .include_ips with a delta; malformed table file; table file rewritten between assemblies), every history up to depth 2 over all events and depth 3 over 9 core events (thorough 3 / 4) executed from a pristine forked process; the state after each "
+              "incbin + include; failure inside an included file; missing include file; macro block argument; .include_ips with a delta; malformed table file; table file rewritten between assemblies), every history up to depth 2 over all events and depth 3 over 10 core events (thorough 3 / 4) executed from a pristine forked process; the state after each "
               "event is the fingerprint of all module-level mutable state of a816.* and script.* (module globals, class attributes, "
-              "function defaults, cache sizes). In every reached state each of 14 probe programs (valid LoROM/HiROM/.map, macros+scopes, "
+              "function defaults, cache sizes). In every reached state each of 17 probe programs (valid LoROM/HiROM/.map, macros+scopes, "
               "table, two failing ones, one that relies on names being absent) is assembled twice and must give the blocks, labels, "
-              "symbols and error text of the probe assembled alone; one baseline per probe also comes from a real fresh interpreter. "
+              "symbols and error text of the probe assembled alone; one baseline per probe also comes from real fresh interpreters under three string-hash seeds (label order included). "
               "Each unit test builds one Program in isolation.")
 LEVEL_NOTE = ("If every event maps the initial fingerprint to itself the reachable state set is {s0} and the result extends to histories of "
               "any length over this alphabet (closure). A changed fingerprint alone is not a violation - only a behavioural difference of "
@@ -60,6 +60,7 @@ EVENTS = {
     "ips-with-delta": ("*=0x018000\n.db 1\n.include_ips 'ev.ips', 0-0x100\n", "low_rom"),
     "bad-table": ("*=0x018000\n.table 'bad.tbl'\n.text 'a'\n", "low_rom"),
     "rewritten-table": ("REWRITE", "low_rom"),
+    "many-wide-operands": ("*=0x018000\n" + "".join(f"lda 0x{0x1200 + i:04x}\nsta 0x{0x7e0000 + i:06x}\nadc 0x{0x2100 + i:04x},x\n" for i in range(120)), "low_rom"),
     "fail-in-include": ("*=0x018000\n.db 1\n.include 'badinc.s'\n.db 2\n", "low_rom"),
     "missing-include": ("*=0x018000\n.db 1\n.include 'nosuchfile.s'\n", "low_rom"),
     "reloc-files": ("*=0x018000\n.include 'inc.s'\n.incbin 'blob.bin'\n@=0x7e2000\nr:\n.pointer r\n", "low_rom"),
@@ -79,16 +80,19 @@ PROBES = {
     "p-bad-table": ("*=0x018000\n.table 'bad.tbl'\n.text 'a'\n", "low_rom"),
     "p-fail-include": ("*=0x018000\n.include 'inc.s'\n.include 'badinc.s'\n", "low_rom"),
     "p-missing-include": ("*=0x018000\n.include 'inc.s'\n.include 'nosuchfile.s'\n", "low_rom"),
+    "p-map-same-address-other-layout": (".map identifier=1 bank_range=0x00, 0x3f addr_range=0x8000, 0xffff mask=0x8000\n*=0x018000\nx:\n.dl x\n*=0x028010\n.db 7\n", "low_rom"),
+    "p-same-address-labels": ("*=0x018000\nfirst:\nsecond:\nthird:\nfourth:\n.db 1\nzeta:\nalpha:\nmid:\n.db 2\n{\nfirst:\nomega:\n}\n", "low_rom"),
+    "p-narrow-operands": ("*=0x018000\n" + "".join(f"lda 0x{0x10 + i:02x}\nsta 0x{0x20 + i:02x},x\n" for i in range(60)) + "end:\n.dl end\n", "low_rom"),
     "p-map": (".map identifier=1 bank_range=0x10, 0x1f addr_range=0x8000, 0xffff mask=0x8000\n*=0x108000\nm:\n.dl m\n", "low_rom"),
 }
 PROBE_NAMES = list(PROBES)
-NONTRIVIAL_EVENTS = {"defines-names", "table", "custom-map", "hirom", "fail-scanner", "fail-parser", "fail-codegen", "fail-labelpass", "fail-emit", "cli", "fail-in-include", "missing-include", "block-argument", "ips-with-delta", "bad-table", "rewritten-table"}
+NONTRIVIAL_EVENTS = {"defines-names", "table", "custom-map", "hirom", "fail-scanner", "fail-parser", "fail-codegen", "fail-labelpass", "fail-emit", "cli", "fail-in-include", "missing-include", "block-argument", "ips-with-delta", "bad-table", "rewritten-table", "many-wide-operands"}
 
 
 def bound(tier):
     if tier == "thorough":
-        return "all histories of length <= 3 over 18 events and of length 4 over 9 core events (from a pristine process each), 14 probes x 2 after every history"
-    return "all histories of length <= 2 over 18 events and of length 3 over 9 core events (from a pristine process each), 14 probes x 2 after every history"
+        return "all histories of length <= 3 over 19 events and of length 4 over 10 core events (from a pristine process each), 17 probes x 2 after every history"
+    return "all histories of length <= 2 over 19 events and of length 3 over 10 core events (from a pristine process each), 17 probes x 2 after every history"
 
 
 def norm(text):
@@ -99,7 +103,8 @@ def norm(text):
 
 def observe(src, rom):
     out = impl.assemble(src, rom=rom, filename="probe.s")
-    return (out.status, [(a, b.hex()) for a, b in out.blocks], sorted(out.labels), sorted(out.symbols.items()), out.exc_type, norm(out.error))
+    return (out.status, [(a, b.hex()) for a, b in out.blocks], sorted(out.labels), sorted(out.symbols.items()), out.exc_type, norm(out.error),
+            [list(x) for x in out.labels])  # last item: labels in the order get_all_labels() lists them (symbol-file order)
 
 
 def do_event(name):
@@ -273,7 +278,7 @@ def baseline():
     return _BASE
 
 
-CORE_EVENTS = ["defines-names", "custom-map", "hirom", "fail-codegen", "fail-emit", "cli", "block-argument", "rewritten-table", "fail-in-include"]
+CORE_EVENTS = ["many-wide-operands", "defines-names", "custom-map", "hirom", "fail-codegen", "fail-emit", "cli", "block-argument", "rewritten-table", "fail-in-include"]
 
 
 def cases(tier, seed):
@@ -325,14 +330,22 @@ def run_fresh():
         % (impl.REPO, os.path.dirname(os.path.dirname(os.path.dirname(os.path.abspath(__file__))))))
     for p in PROBE_NAMES:
         # one real, fresh interpreter per probe
-        pr = subprocess.run([sys.executable, "-c", tmpl % p], capture_output=True, timeout=120,
-                            env=dict(os.environ, PYTHONDONTWRITEBYTECODE="1", PYTHONHASHSEED="0"))
-        text = pr.stdout.decode()
-        m = re.search(r"RESULT(.*)", text)
-        if not m:
-            viol.append({"key": "independence:fresh-interpreter-baseline-failed", "msg": (text + pr.stderr.decode())[-400:]})
+        fresh = None
+        for hashseed in ("0", "1", "4242"):
+            # the result of an assembly may not depend on the interpreter's string-hash seed either
+            pr = subprocess.run([sys.executable, "-c", tmpl % p], capture_output=True, timeout=120,
+                                env=dict(os.environ, PYTHONDONTWRITEBYTECODE="1", PYTHONHASHSEED=hashseed))
+            text = pr.stdout.decode()
+            m = re.search(r"RESULT(.*)", text)
+            if not m:
+                viol.append({"key": "independence:fresh-interpreter-baseline-failed", "msg": (text + pr.stderr.decode())[-400:]})
+                break
+            got = json.loads(m.group(1))
+            if fresh is not None and got != fresh:
+                viol.append({"key": f"independence:result-depends-on-hash-seed:{p}", "msg": f"PYTHONHASHSEED=0: {fresh} / {hashseed}: {got}"})
+            fresh = fresh if fresh is not None else got
+        if fresh is None:
             continue
-        fresh = json.loads(m.group(1))
         a = json.loads(json.dumps(base[1][p][0]))
         if fresh != a:
             viol.append({"key": f"independence:fork-baseline-differs-from-fresh-interpreter:{p}", "msg": f"{fresh} vs {a}"})
